@@ -48,6 +48,10 @@ def naming_space(tier):
     # a block that uses, besides its own local wire <name>, a caller-owned wire of the same name that is not one of its ports
     for l in N:
         out.append(('alias', l))
+    # every IEEE 1364-2005 reserved word as a port name of a non-inlined block
+    from mc.vlog.lexer import RESERVED_2005
+    for word in sorted(RESERVED_2005):
+        out.append(('resv', word))
     return out
 
 
@@ -64,6 +68,14 @@ def build_naming(g):
         py4hw.And2(W, 'g0', x, y, lw)
         py4hw.Reg(W, c0, lw, z)
         return hw, ['w_x', 'w_y']
+    if g[0] == 'resv':
+        word = g[1]
+        x, z = hw.wire('x'), hw.wire('z')
+        W = Logic(hw, 'dut')
+        W.addIn(word, x)
+        W.addOut('p_out', z)
+        py4hw.Reg(W, 'r0', x, z)
+        return hw, ['w_x']
     if g[0] == 'alias':
         l = g[1]
         x, y, z = hw.wire('x'), hw.wire('y'), hw.wire('z')
@@ -124,7 +136,7 @@ def module_signatures(text):
         mods = VP.parse(text)
     except VlogError:
         return sigs
-    chunks = text.split('endmodule')
+    chunks = re.split(r'\bendmodule\b', text)
     for m, ch in zip(mods, chunks):
         ports = tuple((p.dir, p.name, repr(_rng(p.range))) for p in m.ports)
         body = sorted(l.strip() for l in HEX.sub('_ID', ch).split('\n') if l.strip() and not l.strip().startswith('//'))
